@@ -200,7 +200,10 @@ func c06Decode(c *Ctx, input string, useNumber bool) (nontrivial bool) {
 	var got mxj.Map
 	var err error
 	var gw []string
-	st, pan := protect(func() { gw = globalWrites(func() { got, err = mxj.NewMapJson([]byte(input)) }) })
+	inBuf, inCheck := guardedInput(input)
+	st, pan := protect(func() { gw = globalWrites(func() { got, err = mxj.NewMapJson(inBuf) }) })
+	inputDamage := inCheck()
+	scribble(inBuf)
 	if len(gw) > 0 {
 		c.Count("decodes_that_wrote_package_state", 1) // informational, see C01
 	}
@@ -215,6 +218,10 @@ func c06Decode(c *Ctx, input string, useNumber bool) (nontrivial bool) {
 	}
 	if pan {
 		c.Violate("NewMapJson", "panic", shape, cas, nil, st)
+		return
+	}
+	if inputDamage != "" {
+		c.Violate("NewMapJson", "input-buffer-written", shape, cas, nil, inputDamage)
 		return
 	}
 	c.Outcome(fmt.Sprintf("%v|%s", err != nil, dump(got)))
